@@ -80,6 +80,7 @@ def _expand(prog, call, owner_cls, module, depth, targets=None):
     h = None
     skip = 0
     d = dotted(call.func) or ""
+    other_self = None
     if owner_cls is not None and isinstance(call.func, ast.Attribute) and dotted(call.func.value) in ("self", owner_cls.name):
         h = prog.methods_of(owner_cls).get(call.func.attr)
         if h is not None:
@@ -87,6 +88,15 @@ def _expand(prog, call, owner_cls, module, depth, targets=None):
             skip = 0 if "staticmethod" in deco else 1
             if dotted(call.func.value) == owner_cls.name and skip == 1:
                 return None
+    elif owner_cls is not None and isinstance(call.func, ast.Attribute) and isinstance(call.func.value, ast.Name) \
+            and call.func.value.id in _INSTANCES.get(id(owner_cls), set()):
+        # a method called on another instance of the same class (e.g. the object a classmethod is building)
+        h = prog.methods_of(owner_cls).get(call.func.attr)
+        if h is not None and "staticmethod" not in [dotted(x) for x in h.decorator_list] and h.args.args:
+            skip = 1
+            other_self = (h.args.args[0].arg, call.func.value)
+        else:
+            h = None
     elif isinstance(call.func, ast.Name) and module is not None:
         h = module.functions.get(call.func.id)
     if h is None:
@@ -125,10 +135,16 @@ def _expand(prog, call, owner_cls, module, depth, targets=None):
                 locals_map[x.id] = t.id
             direct = True
     for pn in list(mapping):
-        if pn in stored:
+        uses = sum(1 for x_ in h.body for x in ast.walk(x_) if isinstance(x, ast.Name) and x.id == pn and isinstance(x.ctx, ast.Load))
+        effectful = any(isinstance(x, (ast.Call, ast.Yield, ast.Await)) for x in ast.walk(mapping[pn]))
+        if pn in stored or (effectful and uses != 1):
+            # evaluated once, as at the real call: bind the argument to a local of the inlined body
+            locals_map[pn] = pn + suffix
             pre.append(ast.Assign(targets=[ast.Name(id=pn + suffix, ctx=ast.Store())], value=clone(mapping[pn]),
                                   lineno=call.lineno, col_offset=call.col_offset))
             del mapping[pn]
+    if other_self is not None:
+        mapping[other_self[0]] = other_self[1]
     tr = _Rename(mapping, locals_map)
     stmts = pre + [tr.visit(clone(s)) for s in body]
     res = tr.visit(clone(result)) if result is not None else None
@@ -139,9 +155,76 @@ def _expand(prog, call, owner_cls, module, depth, targets=None):
     return stmts, res
 
 
+class _ExprInliner(ast.NodeTransformer):
+    """Replace calls of helpers whose whole body is `return <expression>` by that expression (arguments substituted)."""
+
+    def __init__(self, prog, owner_cls, module, depth):
+        self.prog, self.owner_cls, self.module, self.depth = prog, owner_cls, module, depth
+
+    def visit_Lambda(self, n):
+        return n
+
+    def visit_Call(self, n):
+        n = self.generic_visit(n)
+        if self.depth <= 0:
+            return n
+        h, skip = None, 0
+        if self.owner_cls is not None and isinstance(n.func, ast.Attribute) and dotted(n.func.value) in ("self", self.owner_cls.name):
+            h = self.prog.methods_of(self.owner_cls).get(n.func.attr)
+            if h is not None:
+                skip = 0 if "staticmethod" in [dotted(x) for x in h.decorator_list] else 1
+                if dotted(n.func.value) == self.owner_cls.name and skip == 1:
+                    return n
+        # module-level functions are not expanded inside expressions: rules name them (validate_exons, overlaps, ...)
+        if h is None or any(isinstance(a, ast.Starred) for a in n.args):
+            return n
+        body = [s for s in h.body if not (isinstance(s, ast.Expr) and isinstance(s.value, ast.Constant))]
+        if len(body) != 1 or not isinstance(body[0], ast.Return) or body[0].value is None:
+            return n
+        if any(isinstance(x, (ast.Yield, ast.YieldFrom, ast.Lambda)) for x in ast.walk(body[0].value)):
+            return n
+        params = [a.arg for a in h.args.args][skip:]
+        mapping = dict(zip(params, n.args))
+        for k in n.keywords:
+            if k.arg is None:
+                return n
+            mapping[k.arg] = k.value
+        for pn, dv in zip(params[len(params) - len(h.args.defaults):], h.args.defaults):
+            mapping.setdefault(pn, dv)
+        if any(pn not in mapping for pn in params):
+            return n
+        # an argument used more than once must be side-effect free to be duplicated
+        for pn, a in mapping.items():
+            uses = sum(1 for x in ast.walk(body[0].value) if isinstance(x, ast.Name) and x.id == pn)
+            if uses > 1 and any(isinstance(x, ast.Call) for x in ast.walk(a)):
+                return n
+        new = _Rename(mapping, {}).visit(clone(body[0].value))
+        return ast.copy_location(new, n)
+
+
+def _inline_exprs(prog, st, owner_cls, module, depth):
+    tr = _ExprInliner(prog, owner_cls, module, depth)
+    if isinstance(st, (ast.If, ast.While)):
+        st.test = tr.visit(st.test)
+    elif isinstance(st, ast.For):
+        st.iter = tr.visit(st.iter)
+    elif isinstance(st, (ast.Assign, ast.AugAssign, ast.Return, ast.Expr, ast.Assert)):
+        # statement-level expansion of the top call is tried first by the caller; nested calls are handled here
+        for fld in ("value", "test"):
+            v = getattr(st, fld, None)
+            if isinstance(v, ast.AST):
+                if isinstance(v, ast.Call):
+                    v.args = [tr.visit(a) for a in v.args]
+                    for k in v.keywords:
+                        k.value = tr.visit(k.value)
+                else:
+                    setattr(st, fld, tr.visit(v))
+
+
 def _rewrite_block(prog, stmts, owner_cls, module, depth):
     out = []
     for st in stmts:
+        _inline_exprs(prog, st, owner_cls, module, depth)
         for fld in ("body", "orelse", "finalbody"):
             blk = getattr(st, fld, None)
             if isinstance(blk, list) and blk and isinstance(blk[0], ast.stmt):
@@ -171,6 +254,8 @@ def _rewrite_block(prog, stmts, owner_cls, module, depth):
                 out.extend(_rewrite_block(prog, body, owner_cls, module, depth - 1))
                 out.append(ast.copy_location(ast.Return(value=res), st))
                 continue
+        if isinstance(st, (ast.Assign, ast.Return, ast.Expr)) and isinstance(getattr(st, "value", None), ast.Call):
+            st.value = _ExprInliner(prog, owner_cls, module, depth).visit(st.value)
         out.append(st)
     return out
 
@@ -182,10 +267,21 @@ def _link(node, parent, module):
         _link(ch, node, module)
 
 
+_INSTANCES = {}
+
+
 def inlined(prog, func, depth=2):
     module = getattr(func, "_module", None)
     owner = getattr(func, "_parent", None)
     owner_cls = owner if isinstance(owner, ast.ClassDef) else None
+    if owner_cls is not None:
+        inst = set()
+        for st in ast.walk(func):
+            if isinstance(st, ast.Assign) and len(st.targets) == 1 and isinstance(st.targets[0], ast.Name) and isinstance(st.value, ast.Call):
+                d = dotted(st.value.func) or ""
+                if d in ("cls.__new__", "cls", owner_cls.name, owner_cls.name + ".__new__", "object.__new__"):
+                    inst.add(st.targets[0].id)
+        _INSTANCES[id(owner_cls)] = inst
     new = clone(func)
     new.body = _rewrite_block(prog, new.body, owner_cls, module, depth)
     ast.fix_missing_locations(new)
